@@ -497,6 +497,15 @@ def read_lines():
             out.append((f'sign{sign}/{ann.strip()}', f'{hdr}{sign}{ann}circle[[150.0deg, 20.0deg], 30.0arcsec], coord=J2000\n',
                         [{**base, 'shape': 'circle', 'coords': [(150.0, 20.0)], 'sizes': [30.0 / 3600], 'angle': None, 'include': inc,
                           'type': 'ann' if ann else 'reg'}]))
+    # white space between the sign and the region keyword (accepted by the line grammar)
+    for sp, nm in ((' ', 'blank'), ('\t', 'tab')):
+        for sign, inc in (('+', True), ('-', False)):
+            out.append((f'sign{sign}{nm}', f'{hdr}{sign}{sp}circle[[150.0deg, 20.0deg], 30.0arcsec], coord=J2000\n',
+                        [{**base, 'shape': 'circle', 'coords': [(150.0, 20.0)], 'sizes': [30.0 / 3600], 'angle': None, 'include': inc, 'type': 'reg'}]))
+    # list-valued defaults of the global line belong to each region separately
+    out.append(('global/lists_not_shared', f'{hdr}global coord=J2000, corr=[I, Q], labeloff=[1, 2]\ncircle[[150.0deg, 20.0deg], 30.0arcsec]\n'
+                'circle[[151.0deg, 20.0deg], 30.0arcsec]\ncircle[[152.0deg, 20.0deg], 30.0arcsec], corr=[V]\n',
+                [{**base, 'shape': 'circle', 'coords': [(150.0 + k, 20.0)], 'sizes': [30.0 / 3600], 'angle': None} for k in range(3)]))
     # global defaults and inline override
     out.append(('global/override', f'{hdr}global coord=GALACTIC, color=blue, linewidth=3\ncircle[[10.0deg, 5.0deg], 1.0deg], color=red\n'
                 'circle[[11.0deg, 5.0deg], 1.0deg]\ncircle[[12.0deg, 5.0deg], 1.0deg], coord=J2000, linewidth=1\n',
@@ -577,6 +586,24 @@ def check_read(res, name):
     if len(P) != len(exp):
         res.violation(ID, 'read_count', case, f'{text!r}: expected {len(exp)} regions, got {len(P)}', len(exp), len(P))
         return
+    if name == 'global/lists_not_shared':
+        # the caller edits the list-valued metadata of the first region in place: the second region and a later parse are unaffected
+        try:
+            snap = [FP.fp(dict(r.meta)) for r in P]
+            for key in ('corr', 'labeloff', 'range'):
+                v = P[0].meta.get(key)
+                if isinstance(v, list):
+                    v.append('edited by the caller')
+            now = [FP.fp(dict(r.meta)) for r in P]
+            again = [FP.fp(dict(r.meta)) for r in _parse(text)]
+        except Exception as exc:          # noqa: BLE001
+            res.violation(ID, 'read_raises', case, f'{text!r}: editing the parsed metadata / parsing again raised {type(exc).__name__}: {exc}')
+            return
+        if now[1:] != snap[1:]:
+            res.violation(ID, 'read_meta', case, f'{text!r}: appending to a list in the metadata of region 0 changed the metadata of another region: '
+                                                 f'{[dict(r.meta) for r in P[1:]]!r}')
+        if again != snap:
+            res.violation(ID, 'read_meta', case, f'{text!r}: after the caller edited a parsed region, parsing the same text again gives other metadata')
     for k, (e, r) in enumerate(zip(exp, P)):
         g = RD.describe(r)
         diffs = RD.compare(e, g, 1e-9, 1e-9, 1e-9)
